@@ -196,7 +196,7 @@ def run_check(pid, tier, seed=0):
                 missing.append(j['entry'])
                 continue
             opts = dict(j.get('opts', {}))
-            opts.setdefault('timeout_ms', 60000 if tier == 'quick' else 300000)
+            opts.setdefault('timeout_ms', 150000 if tier == 'quick' else 300000)
             opts['seed'] = seed
             opts['known'] = [k for k in known if re.search(k.get('entry', '.*'), j['entry'])]
             opts.setdefault('export_queries', 2 if tier == 'quick' else 8)
